@@ -1,0 +1,9 @@
+//go:build verif
+
+// Contracts for package compactindexsized, property C07 (comment-only; read by /verif/vcgo, build tag verif).
+// Only what the gsfa multi-epoch readers call besides the blocks of contracts_verif.go.
+package compactindexsized
+
+//@ func IsNotFound
+//@   mode int
+//@   ensures result == (err != nil && isErr(err, ErrNotFound))
